@@ -119,7 +119,10 @@ def entry_points(inst):
     both("Mask2D.derive_mask.edge_buffed", "coord", lambda mk_, s: aa.Grid2D.from_mask(mask=mk_.derive_mask.edge_buffed), _origin)
     both("Mask2D.rescaled_from?skip", "invariant", lambda mk_, s: np.zeros(1))
     recs.pop()
-    both("image_mesh.Overlay.image_plane_mesh_grid_from", "coord", lambda mk_, s: aa.image_mesh.Overlay(shape=(3, 3)).image_plane_mesh_grid_from(mask=mk_, adapt_data=None))
+    both("image_mesh.Overlay.image_plane_mesh_grid_from", "coord", lambda mk_, s: aa.image_mesh.Overlay(shape=(4, 4)).image_plane_mesh_grid_from(mask=mk_, adapt_data=None))
+    # (a 4x4 overlay never puts an overlay centre exactly on an image-pixel boundary for bounding boxes of fewer than 8 pixels;
+    #  with 3 rows the middle centre sits on a boundary whenever the box has an even number of rows, and which side such a tie
+    #  falls to is floating-point noise that legitimately varies with the origin)
     both("Mesh2DRectangular.overlay_grid", "coord",
          lambda mk_, s: aa.Mesh2DRectangular.overlay_grid(grid=np.array(aa.Grid2D.from_mask(mask=mk_)), shape_native=(3, 4)))
     # points translated with the origin: indices must not change
